@@ -523,3 +523,23 @@ func SetPrice(price)
 func Update(nef, manifest, data)
   ensures [C11] W(cmtaddr())
 @*/
+
+/*@
+module upgrade
+props C16
+use common core
+use common vote
+use nns names
+use nns ownership
+dialect neovm
+
+// C16: an upgrade runs only from a supported older version: oldest supported <= deployed version < new version.
+pure lastarg(d Any) Int = asint(aslist(d)[len(aslist(d)) - 1])
+
+func _deploy(data, isUpdate)
+  ensures [C16] isUpdate ==> PrevVersion <= lastarg(data) && lastarg(data) < Version
+  loop 0
+    invariant true
+  loop 1
+    invariant true
+@*/
